@@ -372,7 +372,7 @@ nextinto(struct token *t)
 		if (newline && t->kind == THASH) {
 			directive();
 		} else {
-			newline = tok.kind == TNEWLINE;
+			newline = t->kind == TNEWLINE;
 			break;
 		}
 	}
